@@ -31,7 +31,7 @@ def main(argv):
         print("%-70s %3d obligations  inlined=%s" % (q, len(r["obligations"]), ",".join(x.split(".")[-1] for x in r.get("inlined", []))))
         allobls.extend(r["obligations"])
     print("generated %d obligations in %.1fs" % (len(allobls), time.time() - t0))
-    res = discharge(allobls, timeout=timeout)
+    res = discharge(allobls, timeout=timeout, engine=eng)
     bad = 0
     for r in res:
         v = r["verdict"]
